@@ -727,10 +727,15 @@ func (c *rtCompiler) planFunc(key string, iters int) (*rtFuncPlan, error) {
 	}
 	// the call
 	call := ""
+	cargs := append([]string{}, pnames...)
+	if sig.Variadic() && len(cargs) > 0 {
+		// the generated slice is the variadic argument list itself
+		cargs[len(cargs)-1] += "..."
+	}
 	if sig.Recv() != nil {
-		call = fmt.Sprintf("(%s).%s(%s)", pnames[0], obj.Name(), strings.Join(pnames[1:], ", "))
+		call = fmt.Sprintf("(%s).%s(%s)", cargs[0], obj.Name(), strings.Join(cargs[1:], ", "))
 	} else {
-		call = fmt.Sprintf("%s(%s)", obj.Name(), strings.Join(pnames, ", "))
+		call = fmt.Sprintf("%s(%s)", obj.Name(), strings.Join(cargs, ", "))
 	}
 	if len(rnames) > 0 {
 		call = strings.Join(rnames, ", ") + " = " + call
